@@ -488,6 +488,42 @@ fn main() {
                     Err(_) => out.push(json!({"status":"panic"})),
                 }
             }
+            "mem_seq" => {
+                // a sequence of accesses applied to the memory of a real Process (Chiplets API used by
+                // the memory operations): every word returned, and the final number of trace rows
+                let ops = job["ops"].as_array().unwrap().clone();
+                let r = panic::catch_unwind(panic::AssertUnwindSafe(|| -> Value {
+                    let mut p = miden_processor::Process::new(
+                        miden_core::Kernel::default(),
+                        StackInputs::default(),
+                        DefaultHost::default(),
+                        ExecutionOptions::default(),
+                    );
+                    let w2s = |w: [Felt; 4]| -> Vec<String> { w.iter().map(|e| e.as_int().to_string()).collect() };
+                    let num = |v: &Value| -> u64 { v.as_str().map(|s| s.parse::<u64>().unwrap()).unwrap_or_else(|| v.as_u64().unwrap()) };
+                    let word = |v: &Value| -> [Felt; 4] { let a = v.as_array().unwrap(); [Felt::new(num(&a[0])), Felt::new(num(&a[1])), Felt::new(num(&a[2])), Felt::new(num(&a[3]))] };
+                    let mut res: Vec<Value> = vec![];
+                    let base_rows = p.chiplets.trace_len();
+                    for o in ops.iter() {
+                        let ctx = miden_processor::ContextId::from(num(&o["ctx"]) as u32);
+                        let addr = num(&o["addr"]) as u32;
+                        match o["op"].as_str().unwrap() {
+                            "read" => res.push(json!(w2s(p.chiplets.read_mem(ctx, addr)))),
+                            "read2" => { let d = p.chiplets.read_mem_double(ctx, addr); res.push(json!([w2s(d[0]), w2s(d[1])])) }
+                            "write" => { p.chiplets.write_mem(ctx, addr, word(&o["word"])); res.push(Value::Null) }
+                            "write2" => { p.chiplets.write_mem_double(ctx, addr, [word(&o["word"]), word(&o["word2"])]); res.push(Value::Null) }
+                            "write_elem" => res.push(json!(w2s(p.chiplets.write_mem_element(ctx, addr, Felt::new(num(&o["value"])))))),
+                            "probe" => res.push(json!(w2s(p.chiplets.get_mem_value(ctx, addr).unwrap_or([Felt::new(0); 4])))),
+                            x => panic!("unknown memory op {x}"),
+                        }
+                    }
+                    json!({"status":"ok","results": res, "rows": p.chiplets.trace_len() - base_rows })
+                }));
+                match r {
+                    Ok(v) => out.push(v),
+                    Err(_) => out.push(json!({"status":"panic"})),
+                }
+            }
             "from_ints" => {
                 // statement / advice values built from raw integers through the public constructors:
                 // accepted or rejected, and the resulting elements (canonical integer form)
